@@ -148,6 +148,14 @@ def substitute(t, mapping: dict) -> tuple:
     return r
 
 
+def rewrite(t, f) -> tuple:
+    """Apply ``f`` to every subterm, innermost first."""
+    if not isinstance(t, tuple):
+        return t
+    r = tuple(rewrite(x, f) if isinstance(x, tuple) else x for x in t)
+    return f(r) if r and isinstance(r[0], str) else r
+
+
 def concat_parts(t) -> list | None:
     """View a string concatenation (f-string or ``+`` chain) as a flat list of parts."""
     if op(t) == "concat":
@@ -613,6 +621,9 @@ class Lowering:
             return args[0]
         if is_td and not args and kws and all(k is not None for k, _ in kws):
             return ("dict", tuple((("const", k), v) for k, v in kws))
+        if op(func) == "cls" and func[1].endswith(".ReferenceTuple") and not kws and len(args) == 2 and all(op(a) == "const" and a[1] is None for a in args):
+            # the legacy "no match" answer of parse_uri spelled through the class: a NamedTuple IS the tuple
+            return ("tuple", tuple(args))
         if op(func) == "attr" and isinstance(func[2], str) and getattr(self, "_nt_depth", 0) < 4:
             nt = self._namedtuple_ctor(func[1])
             if nt is not None:
